@@ -74,6 +74,8 @@ class Trace:
         self.permuting = False
         self.plans = {}
         self.tidmap = {}                  # task id -> (observation name, graph node)
+        for m in MISSING:
+            self.inconclusive.append('probe: wrapper target missing: %s' % m)
         self.states = set()
 
     # ------------------------------------------------------------------
@@ -363,8 +365,26 @@ def _bind(sig, self_, a, k):
         return {}
 
 
+MISSING = []      # wrapper targets that do not exist (renamed/removed): -> inconclusive
+
+
+def _lookup(cls, name):
+    """The function that implements cls.name, wherever in the MRO it is defined (a refactor may
+    move shared code into a base class); the wrapper is always installed on cls itself."""
+    for c in cls.__mro__:
+        if name in c.__dict__:
+            f = c.__dict__[name]
+            if isinstance(f, (staticmethod, classmethod)):
+                f = f.__func__
+            return f
+    MISSING.append('%s.%s' % (cls.__name__, name))
+    return None
+
+
 def wrap_gen(cls, name, kind, enter, leave):
-    orig = cls.__dict__[name]
+    orig = _lookup(cls, name)
+    if orig is None:
+        return
     sig = inspect.signature(orig)
 
     def wrapper(self, *a, **k):
@@ -398,7 +418,9 @@ def wrap_gen(cls, name, kind, enter, leave):
 
 
 def wrap_fn(cls, name, kind, before=None, after=None):
-    orig = cls.__dict__[name]
+    orig = _lookup(cls, name)
+    if orig is None:
+        return
     sig = inspect.signature(orig)
 
     def wrapper(self, *a, **k):
